@@ -45,7 +45,13 @@ unsafe impl GlobalAlloc for Counting {
         LIVE_BLOCKS.fetch_add(1, Ordering::SeqCst);
         TOTAL_ALLOCATED.fetch_add(l.size(), Ordering::SeqCst);
         log(l.size());
-        System.alloc(l)
+        // fresh memory is poisoned: reading a byte the library forgot to initialise (e.g. the tail of
+        // a backing region that should be zero) does not depend on what the allocator recycles
+        let p = System.alloc(l);
+        if !p.is_null() {
+            core::ptr::write_bytes(p, 0xA5, l.size());
+        }
+        p
     }
     unsafe fn dealloc(&self, p: *mut u8, l: Layout) {
         LIVE_BYTES.fetch_sub(l.size() as isize, Ordering::SeqCst);
@@ -58,7 +64,11 @@ unsafe impl GlobalAlloc for Counting {
             TOTAL_ALLOCATED.fetch_add(new_size - l.size(), Ordering::SeqCst);
         }
         log(new_size);
-        System.realloc(p, l, new_size)
+        let q = System.realloc(p, l, new_size);
+        if !q.is_null() && new_size > l.size() {
+            core::ptr::write_bytes(q.add(l.size()), 0xA5, new_size - l.size());
+        }
+        q
     }
 }
 
